@@ -273,6 +273,7 @@ var wd *world
 
 func run(c Case) (string, *mc.Viol) {
 	wd := wd
+	var firstResp, firstKey, firstRespCopy, firstKeyCopy []byte
 	if c.AfterHonest {
 		// a private issuer (same keys and registrations, deterministic name key): it serves an honest
 		// request first; whatever it remembers of that must not let the next request through
@@ -285,9 +286,12 @@ func run(c Case) (string, *mc.Viol) {
 		}
 		hreq, _ := wd.construct(hc)
 		mc.Entropy("c07-eval-honest-first")
-		if _, _, err := wd.w[c.Issuer].Issuer.Evaluate(hreq); err != nil {
+		hresp, hbrk, err := wd.w[c.Issuer].Issuer.Evaluate(hreq)
+		if err != nil {
 			return "honest-first-rejected", &mc.Viol{Sig: "issuer rejects an authentic request: honest-client", What: err.Error()}
 		}
+		firstResp, firstKey = hresp, hbrk
+		firstRespCopy, firstKeyCopy = append([]byte{}, hresp...), append([]byte{}, hbrk...)
 	}
 	req, st := wd.construct(c)
 	in := mutate(req, c)
@@ -296,6 +300,9 @@ func run(c Case) (string, *mc.Viol) {
 	var err error
 	if p := mc.Catch(func() { resp, brk, err = wd.w[c.Issuer].Issuer.Evaluate(in) }); p != "" {
 		return "panic", &mc.Viol{Sig: "issuer Evaluate panics: " + c.Build + "/" + c.Mut, What: p}
+	}
+	if !bytes.Equal(firstResp, firstRespCopy) || !bytes.Equal(firstKey, firstKeyCopy) {
+		return "earlier-output-changed", &mc.Viol{Sig: "the outputs of an earlier Evaluate changed when the next request was evaluated", What: c.Build + "/" + c.Mut}
 	}
 	site := c.Build
 	if c.Mut != "none" {
